@@ -147,6 +147,13 @@ CLAIMED = {
             'exactly once per accepted group, for groups 1..k-1 in order - and InterpolationContext::getPathInterpolants answers every mask in order with exactly one interpolant; '
             'the front end asks for the path form exactly when there is more than one mask.',
             'static analysis: path walk of one group-loop iteration (monotone accumulator, append count) + loop-range rules over the mini-AST', ''),
+    'C14': ('other',
+            'Static, the Boolean simplifying constructors only: Logic::mkNot, mkXor, mkImpl, mkIte, mkBinaryEq (Boolean arguments), mkAnd, mkOr touch their arguments only through '
+            'identity comparisons and isTrue / isFalse / isNot, so their behaviour is a function of a finite set of argument patterns; every pattern over '
+            '{true, false, x, (not x), y, (not y), z, (not z)} (all pairs / triples; lists up to length 3 for and/or under three creation orders) is pushed through the '
+            'constructor\'s decision structure by an abstract evaluator over the mini-AST and the returned term shape is compared with the operator by a truth table '
+            '(2360 patterns). Arithmetic constructors, equality on other sorts, distinct, select/store are value-level and not decided.',
+            'static analysis: abstract evaluation of the constructors\' decision structure over a finite domain of argument patterns + truth table (no code is compiled or run)', ''),
     'C15': ('other',
             'Static: (1) UB-obligation engine - every compiler-inserted sanitizer obligation (signed overflow, narrowing, sign change, float cast) in FastRational.h/.cc is '
             'either deleted by LLVM -O2 range analysis or listed in a table with a written justification and the guards it relies on (guards must still be present); the IR '
@@ -172,7 +179,6 @@ NOT_APPLICABLE = {
     'C11': 'validity in the theory of clauses built from runtime solver state; the one shape-visible clause (positive Farkas coefficients) is claimed under C26',
     'C12': 'propositional consequence of a runtime clause database (RUP) cannot be decided from source shape',
     'C13': 'semantic equisatisfiability of rewrites over all terms needs evaluation or solving, a different technique family',
-    'C14': 'semantic equivalence of constructor results over all arguments needs evaluation or solving',
     'C30': 'termination needs ranking arguments for CDCL with restarts, Bland pivoting and lookahead; polling a stop flag is not termination',
 }
 
